@@ -82,6 +82,16 @@ def sumF (xs : List Float) : Float := xs.foldl (· + ·) 0.0
 def simplexOK (alphas : List Float) : Bool :=
   fabs (sumF alphas - 1.0) ≤ 1e-9 && alphas.all (fun a => a ≥ -1e-12)
 
+/-- absolute-scale hint for the comparator: the next group is compared with an extra absolute tolerance `1e-12 * scale`
+    (`scale` = sum of the absolute values of the terms of the formula: what rounding in a different summation order can move) -/
+def gS (scale : Float) : String := s!"S {hexOfFloat scale}"
+
+def nearS (scale a b : Float) : Bool := fabs (a - b) ≤ RT * fmax (fabs a) (fabs b) + 1e-12 * scale
+def gLeS (scale a b : Float) : String := if nearS scale a b then gBq else gB (decide (a ≤ b))
+def gLtS (scale a b : Float) : String := if nearS scale a b then gBq else gB (decide (a < b))
+
+def maxAbs (xs : List Float) : Float := xs.foldl (fun m x => fmax m (fabs x)) 0.0
+
 def absdot : List Float → List Float → Float
   | a :: as, b :: bs => fabs (a * b) + absdot as bs
   | _, _ => 0.0
@@ -195,8 +205,13 @@ def doAppend (c : Ctx) (b : BeginRec) (kept : List (Pair Float)) (st : St) : St 
   let mk := reduce c.capacity c.eps0 thres c.n b.pairs b.alphas
   let post := appendStep b.serious kept b.x b.fx b.y b.gy b.fy
   let simplex := if full then simplexOK (act.map (·.2)) else true
-  st.emit ["append", gI (if b.serious then 1 else 0), gL (pairsE mk), gL (pairsS mk),
-           gL (pairsE post.pairs), gL (pairsS post.pairs), gB simplex]
+  let scaleE := if b.serious then
+      let d := vsub b.y b.x
+      (kept.map (fun p => fabs p.e + fabs b.fy + fabs b.fx + absdot p.s d)).foldl fmax 0.0
+    else fabs b.fx + fabs b.fy + absdot b.gy (vsub b.x b.y)
+  let scaleA := (act.map (fun pa => fabs pa.2 * maxAbs pa.1.s)).foldl (· + ·) 0.0
+  st.emit ["append", gI (if b.serious then 1 else 0), gL (pairsE mk), gS scaleA, gL (pairsS mk),
+           gS scaleE, gL (pairsE post.pairs), gL (pairsS post.pairs), gB simplex]
 
 def doSolve (s : SolveRec) (st : St) : St :=
   let ok := simplexOK s.alphas && (s.alphas.length != 1 || s.alphas == [1.0]) && s.alphas.length == s.pairs.length
@@ -231,7 +246,10 @@ def doIter (c : Ctx) (vs : List Float) (st : St) : Option St := do
       let sn' := norm2 s'
       let tl := tol c.n eps
       let miuS := match st.cs with | some cs => gF (miu / cs.t) | none => gFq
-      [miuS, gF e', gF sn', gF (delta c.n sv.miu sv.pairs sv.alphas), gLe e' tl, gLe sn' tl, gL (proximal sv.miu sv.x s')]
+      -- `smeared_s` is a sum of O(1) rows that cancels down to O(eps) near the optimum
+      let scaleS := (List.zipWith (fun (p : Pair Float) a => fabs a * maxAbs p.s) sv.pairs sv.alphas).foldl (· + ·) 0.0
+      [miuS, gF e', gS scaleS, gF sn', gS (sn' * scaleS / sv.miu), gF (delta c.n sv.miu sv.pairs sv.alphas), gLe e' tl,
+       gLeS scaleS sn' tl, gS (scaleS / sv.miu), gL (proximal sv.miu sv.x s')]
   -- part 2: the decision of the loop body on the logged numbers
   let d := vsub y x
   let gyd := dot gy d
@@ -268,8 +286,17 @@ def doEll (c : Ctx) (r : EllRec) (st : St) : St :=
         | _, _, _ => st.fail
       else
         let (x', H') := stepND c.n p.x p.g p.H p.f p.best
-        st.emit ["upd", gL x', gL (List.flatten H'), gF (better p.best f')]
-  { st.emit ["ell", gF gHg', gLt gHg' c.epsM] with ell := some r }
+        let nn : Float := Float.ofNat c.n
+        let aHg := p.H.map (fun r => absdot r p.g)
+        let gHg := quad p.H p.g
+        let a := alphaCut p.f p.best gHg
+        let sx := fabs ((1 + nn * a) / (nn + 1)) * maxAbs aHg / Sqrt.sqrt gHg
+        let c1 := fabs ((nn * nn) / (nn * nn - 1) * (1 - a * a))
+        let c2 := fabs (2 * (1 + nn * a) / (nn + 1) / (1 + a))
+        let sH := c1 * (maxAbs (List.flatten p.H) + c2 * (maxAbs aHg * maxAbs aHg) / fabs gHg)
+        st.emit ["upd", gS sx, gL x', gS sH, gL (List.flatten H'), gF (better p.best f')]
+  let sq := absdot r.g (r.H.map (fun row => absdot row r.g))
+  { st.emit ["ell", gS sq, gF gHg', gLtS sq gHg' c.epsM] with ell := some r }
 
 /-- `solver.done`: the flags handed over by the solver -/
 def doDone (c : Ctx) (ellipsoid : Bool) (vs : List Float) (st : St) : Option St := do
@@ -280,9 +307,12 @@ def doDone (c : Ctx) (ellipsoid : Bool) (vs : List Float) (st : St) : Option St 
     | none => pure (st.emit ["done", gBq, gBq])
     | some r =>
       let gHg' := quad r.H r.g
-      if near gHg' c.epsM then pure (st.emit ["done", gBq, gBq])
+      let sq := absdot r.g (r.H.map (fun row => absdot row r.g))
+      if nearS sq gHg' c.epsM then pure (st.emit ["done", gBq, gBq])
       else if earlyStop c.epsM gHg' then pure (st.emit ["done", gBq, gB true])
-      else pure (st.emit ["done", gBq, gLt (Sqrt.sqrt gHg') r.eps])
+      -- sqrt(gHg) < eps  <=>  gHg < eps^2 up to the margin
+      else if nearS sq gHg' (r.eps * r.eps) then pure (st.emit ["done", gBq, gBq])
+      else pure (st.emit ["done", gBq, gB (converged r.eps gHg')])
   else
     match st.lastStatus with
     | none => pure (st.emit ["done", gBq, gBq])
